@@ -92,7 +92,7 @@ main(void)
 	T0N_CTXT ca, cb;
 	size_t k = ND_SIZE(), i;
 #ifdef NATIVE_REPLAY
-	memset(&ca, 0, sizeof ca); memset(&cb, 0, sizeof cb);
+	NATIVE_FILL(&ca, sizeof ca); NATIVE_FILL(&cb, sizeof cb);
 #endif
 	ASSUME(k <= N);
 	for (i = 0; i < N; i ++) buf[i] = ND_U8();
